@@ -14,10 +14,14 @@ package gitlab
 //@   props C16
 //@   nopanic
 //@   modifies nothing
+// The title an imported note stands for is one clean line, whatever the tracker holds (C16: "whatever text the
+// tracker holds, the imported operations are valid" - SetTitleOperation.Validate refuses anything else, and a refused
+// operation makes every later import of that issue fail).
 //@ func NoteEvent.Title
 //@   props C16
 //@   nopanic
 //@   modifies nothing
+//@   ensures [one-clean-line] text.oneLineFrom(result, 0)
 //@ func LabelEvent.Kind
 //@   props C16
 //@   nopanic
@@ -76,6 +80,7 @@ package gitlab
 // for every event kind except a comment, whose text may have been edited on the tracker.
 //@ func (*gitlabImporter).ensureIssueEvent
 //@   props C16
+//@   opt sanitized
 //@   requires event != nil && cache.requestUser == nil
 //@   ensures [idempotent-event] cache.opImported(metaKeyGitlabId, event.ID()) && event.Kind() != EventComment ==> cache.bugOps == old(cache.bugOps)
 // ... and an already imported comment appends an edit only if the tracker's text, once sanitized the way it
@@ -94,6 +99,7 @@ package gitlab
 //@   ensures [matches-origin-issue-instance-and-project] result == ((md != nil && ("origin" in md) ? md["origin"] : "") == "gitlab" && (md != nil && ("gitlab-id" in md) ? md["gitlab-id"] : "") == itoa(issue.IID) && (md != nil && ("gitlab-base-url" in md) ? md["gitlab-base-url"] : "") == ((gi.conf != nil && ("base-url" in gi.conf)) ? gi.conf["base-url"] : "") && (md != nil && ("gitlab-project-id" in md) ? md["gitlab-project-id"] : "") == ((gi.conf != nil && ("project-id" in gi.conf)) ? gi.conf["project-id"] : ""))
 //@ func (*gitlabImporter).ensureIssue
 //@   props C16
+//@   opt sanitized
 //@   requires cache.requestUser == nil
 //@   assert at `b, _, err = repo.Bugs().NewRaw(` [created-only-when-not-found] typeof(err) == type[*entity.ErrNotFound]
 // ... and the bug it creates carries exactly what the matcher above looks for, so the next import finds it
